@@ -4,17 +4,20 @@ From PG Require Import Lib.Strs Model.Wire Proofs.Wire.
 
 (* The full statement
      C04_full : forall mn o a, well_typed mn o a = true -> exists r, call mn o a = Some r /\ Spec o a r
-   is still FALSE: C04_refuted_F04c/d/f/i below give four well-typed calls of the faithful model that
-   violate it (each replayed on a generated client, corpus/C04/).  F04a (cookies), F04b (multi-content dispatch), F04e (Enum values),
+   is still FALSE: C04_refuted_F04c/d/f/i/k below give five well-typed calls of the faithful model that
+   violate it (each replayed on a generated client, corpus/C04/).  F04a (cookies), F04b (multi-content
+   dispatch), F04e (Enum values),
    F04g (Content-Type of raw bodies) and F04h (percent-encoding of path values) are FIXED in the code:
    their guard conjuncts are gone and their witnesses now lie inside C04_partial (C04_fixed_witnesses).
 
    C04_partial: for EVERY sanitiser mn, EVERY operation and EVERY argument assignment (any number of
    parameters in any location and order, any subset of the optional arguments, any of the declared
-   content types): if the call is well typed and meets the five executable guards (F04c, F04d, F04f, F04i and F04j = media types other than
-   json/multipart/form inside a multi-content operation, an observed defect that is outside the model), the generated method
-   issues exactly one request, and that request has the operation's method, the path template with each
-   variable replaced by the caller's value (each value inside its own path segment), exactly the supplied
+   content types): if the call is well typed and meets the six executable guards (F04c, F04d, F04f, F04i,
+   F04k and F04j = media types other than json/multipart/form inside a multi-content operation, an observed
+   defect that is outside the model), the generated method
+   issues exactly one request, and that request has the operation's method, the path a router sees is the
+   template with each variable replaced by the caller's value (segment by segment, after httpx's
+   dot-segment normalisation), exactly the supplied
    query / header / cookie values under their original names and nothing else, and the body and
    Content-Type of the supplied body argument. *)
 Theorem C04_partial : forall mn o a,
@@ -26,7 +29,7 @@ Print Assumptions C04_partial.
 (* a path-level parameter repeated at operation level: duplicate argument, no request at all *)
 Theorem C04_refuted_F04c :
   well_typed (mn_of tbl_F04c) op_F04c args_F04c = true
-  /\ guards (mn_of tbl_F04c) op_F04c args_F04c = [true; false; true; true; true]
+  /\ guards (mn_of tbl_F04c) op_F04c args_F04c = [true; false; true; true; true; true]
   /\ ~ holds (mn_of tbl_F04c) op_F04c args_F04c.
 Proof. exact refuted_F04c. Qed.
 Print Assumptions C04_refuted_F04c.
@@ -34,7 +37,7 @@ Print Assumptions C04_refuted_F04c.
 (* a query parameter named `body` next to a JSON body: the body argument is dropped *)
 Theorem C04_refuted_F04d :
   well_typed (mn_of tbl_F04d) op_F04d args_F04d = true
-  /\ guards (mn_of tbl_F04d) op_F04d args_F04d = [true; true; false; true; true]
+  /\ guards (mn_of tbl_F04d) op_F04d args_F04d = [true; true; false; true; true; true]
   /\ ~ holds (mn_of tbl_F04d) op_F04d args_F04d.
 Proof. exact refuted_F04d. Qed.
 Print Assumptions C04_refuted_F04d.
@@ -42,7 +45,7 @@ Print Assumptions C04_refuted_F04d.
 (* an integer header argument: TypeError, no request at all *)
 Theorem C04_refuted_F04f :
   well_typed (mn_of tbl_F04f) op_F04f args_F04f = true
-  /\ guards (mn_of tbl_F04f) op_F04f args_F04f = [true; true; true; false; true]
+  /\ guards (mn_of tbl_F04f) op_F04f args_F04f = [true; true; true; false; true; true]
   /\ ~ holds (mn_of tbl_F04f) op_F04f args_F04f.
 Proof. exact refuted_F04f. Qed.
 Print Assumptions C04_refuted_F04f.
@@ -50,10 +53,18 @@ Print Assumptions C04_refuted_F04f.
 (* a boolean path value is sent as True *)
 Theorem C04_refuted_F04i :
   well_typed (mn_of tbl_F04i) op_F04i args_F04i = true
-  /\ guards (mn_of tbl_F04i) op_F04i args_F04i = [true; true; true; true; false]
+  /\ guards (mn_of tbl_F04i) op_F04i args_F04i = [true; true; true; true; false; true]
   /\ ~ holds (mn_of tbl_F04i) op_F04i args_F04i.
 Proof. exact refuted_F04i. Qed.
 Print Assumptions C04_refuted_F04i.
+
+(* a path value ".." is a dot segment: GET /f/g/{name} is sent as GET /f *)
+Theorem C04_refuted_F04k :
+  well_typed (mn_of tbl_F04k) op_F04k args_F04k = true
+  /\ guards (mn_of tbl_F04k) op_F04k args_F04k = [true; true; true; true; true; false]
+  /\ ~ holds (mn_of tbl_F04k) op_F04k args_F04k.
+Proof. exact refuted_F04k. Qed.
+Print Assumptions C04_refuted_F04k.
 
 (* regression: the witnesses of the fixed findings F04a, F04b, F04e, F04g, F04h are well typed and meet every guard *)
 Theorem C04_fixed_witnesses :
